@@ -10,10 +10,15 @@
 mod fw;
 mod refeval;
 mod c04;
+mod c07;
 mod c08;
 mod c11;
 mod graphref;
 mod c16;
+mod c18;
+mod ilgen;
+mod locgraph;
+mod refinterp;
 
 use fw::*;
 use std::time::{Duration, Instant};
@@ -21,8 +26,10 @@ use std::time::{Duration, Instant};
 fn make_check(prop: &str, tier: Tier) -> Option<Box<dyn Check>> {
     Some(match prop {
         "C04" => Box::new(c04::C04::new(tier)),
+        "C07" => Box::new(c07::C07::new(tier)),
         "C08" => Box::new(c08::C08::new(tier)),
         "C11" => Box::new(c11::C11::new(tier)),
+        "C18" => Box::new(c18::C18::new(tier)),
         "C16" => Box::new(c16::C16::new(tier)),
         _ => return None,
     })
